@@ -306,10 +306,14 @@ macro_rules! backend_cases {
                     k: TorusPrecision((b2k * size) as u32),
                 };
                 Some(match op {
-                    "split_mut" => kv.g("cnt") * kv.g("len"),
-                    "vec_znx_normalize" => module.vec_znx_normalize_tmp_bytes(),
-                    "vec_znx_lsh" => module.vec_znx_lsh_tmp_bytes(),
-                    "vec_znx_rsh" => module.vec_znx_rsh_tmp_bytes(),
+                    // the documented requirement of split_mut: every region but the last is padded to the alignment
+                    "split_mut" => {
+                        let (cnt, len) = (kv.g("cnt"), kv.g("len"));
+                        if cnt == 0 { 0 } else { (cnt - 1) * len.next_multiple_of(poulpy_hal::DEFAULTALIGN) + len }
+                    }
+                    "vec_znx_normalize" | "vec_znx_normalize_assign" => module.vec_znx_normalize_tmp_bytes(),
+                    "vec_znx_lsh" | "vec_znx_lsh_assign" => module.vec_znx_lsh_tmp_bytes(),
+                    "vec_znx_rsh" | "vec_znx_rsh_assign" => module.vec_znx_rsh_tmp_bytes(),
                     "vec_znx_rotate_assign" => module.vec_znx_rotate_assign_tmp_bytes(),
                     "vec_znx_automorphism_assign" => module.vec_znx_automorphism_assign_tmp_bytes(),
                     "vec_znx_mul_xp_minus_one_assign" => module.vec_znx_mul_xp_minus_one_assign_tmp_bytes(),
@@ -333,8 +337,8 @@ macro_rules! backend_cases {
                     "cnv_pairwise_apply_dft" => module.cnv_pairwise_apply_dft_tmp_bytes(kv.g("off"), size, asize, kv.g("bsize")),
                     "lwe_encrypt_sk" => module.lwe_encrypt_sk_tmp_bytes(&lwe),
                     "lwe_decrypt" => module.lwe_decrypt_tmp_bytes(&lwe),
-                    "glwe_encrypt_sk" => module.glwe_encrypt_sk_tmp_bytes(&res),
-                    "glwe_encrypt_pk" => module.glwe_encrypt_pk_tmp_bytes(&res),
+                    "glwe_encrypt_sk" | "glwe_encrypt_zero_sk" => module.glwe_encrypt_sk_tmp_bytes(&res),
+                    "glwe_encrypt_pk" | "glwe_encrypt_zero_pk" => module.glwe_encrypt_pk_tmp_bytes(&res),
                     "glwe_decrypt" => module.glwe_decrypt_tmp_bytes(&res),
                     "glwe_normalize" | "glwe_normalize_assign" => module.glwe_normalize_tmp_bytes(),
                     "glwe_rsh" | "glwe_lsh" | "glwe_lsh_assign" => module.glwe_shift_tmp_bytes(),
@@ -414,6 +418,19 @@ macro_rules! backend_cases {
                         finish!(tb, |s: &mut Scratch<BE>| {
                             let mut r = VecZnx::alloc(n, 1, size);
                             module.vec_znx_normalize(&mut r, rb, 0, 0, &a, b2k, 0, s);
+                            bytes_of_i64(r.raw())
+                        })
+                    }
+                    "vec_znx_normalize_assign" | "vec_znx_lsh_assign" | "vec_znx_rsh_assign" => {
+                        let a = rand_vec(n, 1, size, if op == "vec_znx_normalize_assign" { 40 } else { b2k }, 2);
+                        let sh = if size >= 2 { b2k + 3 } else { b2k / 2 };
+                        finish!(tb, |s: &mut Scratch<BE>| {
+                            let mut r = a.clone();
+                            match op {
+                                "vec_znx_normalize_assign" => module.vec_znx_normalize_assign(b2k, &mut r, 0, s),
+                                "vec_znx_lsh_assign" => module.vec_znx_lsh_assign(b2k, sh, &mut r, 0, s),
+                                _ => module.vec_znx_rsh_assign(b2k, sh, &mut r, 0, s),
+                            }
                             bytes_of_i64(r.raw())
                         })
                     }
@@ -573,7 +590,7 @@ macro_rules! backend_cases {
                         })
                     }
                     // ------------------------------------------------------------------ core: GLWE enc/dec
-                    "glwe_encrypt_sk" | "glwe_decrypt" | "glwe_encrypt_pk" => {
+                    "glwe_encrypt_sk" | "glwe_decrypt" | "glwe_encrypt_pk" | "glwe_encrypt_zero_sk" | "glwe_encrypt_zero_pk" => {
                         let infos = glwe_layout(n, b2k, size, rank);
                         let enc = EncryptionLayout::new_from_default_sigma(infos).unwrap();
                         let mut sk = GLWESecret::alloc(Degree(n as u32), Rank(rank as u32));
@@ -583,6 +600,13 @@ macro_rules! backend_cases {
                         let mut pt = GLWEPlaintext::alloc_from_infos(&infos);
                         let v = rand_vec(n, 1, size, b2k.saturating_sub(2).max(1), 11);
                         pt.data_mut().raw_mut().copy_from_slice(v.raw());
+                        if op == "glwe_encrypt_zero_sk" {
+                            finish!(tb, |s: &mut Scratch<BE>| {
+                                let mut ct = GLWE::alloc_from_infos(&infos);
+                                module.glwe_encrypt_zero_sk(&mut ct, &skp, &enc, &mut Source::new([2u8; 32]), &mut Source::new([3u8; 32]), s);
+                                bytes_of_i64(ct.data().raw())
+                            })
+                        }
                         if op == "glwe_encrypt_sk" {
                             finish!(tb, |s: &mut Scratch<BE>| {
                                 let mut ct = GLWE::alloc_from_infos(&infos);
@@ -598,7 +622,7 @@ macro_rules! backend_cases {
                                 bytes_of_i64(ct.data().raw())
                             })
                         }
-                        if op == "glwe_encrypt_pk" {
+                        if op == "glwe_encrypt_pk" || op == "glwe_encrypt_zero_pk" {
                             let pksize = if kv.g("pksize") == 0 { size } else { kv.g("pksize") };
                             let pk_infos = glwe_layout(n, b2k, pksize, rank);
                             let pk_enc = EncryptionLayout::new_from_default_sigma(pk_infos).unwrap();
@@ -615,15 +639,19 @@ macro_rules! backend_cases {
                             module.glwe_public_key_prepare(&mut pkp, &pk);
                             finish!(tb, |s: &mut Scratch<BE>| {
                                 let mut ct = GLWE::alloc_from_infos(&infos);
-                                module.glwe_encrypt_pk(
-                                    &mut ct,
-                                    &pt,
-                                    &pkp,
-                                    &enc,
-                                    &mut Source::new([2u8; 32]),
-                                    &mut Source::new([3u8; 32]),
-                                    s,
-                                );
+                                if op == "glwe_encrypt_zero_pk" {
+                                    module.glwe_encrypt_zero_pk(&mut ct, &pkp, &enc, &mut Source::new([2u8; 32]), &mut Source::new([3u8; 32]), s);
+                                } else {
+                                    module.glwe_encrypt_pk(
+                                        &mut ct,
+                                        &pt,
+                                        &pkp,
+                                        &enc,
+                                        &mut Source::new([2u8; 32]),
+                                        &mut Source::new([3u8; 32]),
+                                        s,
+                                    );
+                                }
                                 bytes_of_i64(ct.data().raw())
                             })
                         }
